@@ -26,8 +26,9 @@ PREDICTS = {
     'C10-scala-package-brace': {'lex', 'template'},
     'C10-scala-default': {'scala-default'},
     'C10-swift-label': {'swift-label'},
-    'C10-python-generic-alias': {'py-grammar'},
+    'C10-python-generic-alias': {'py-grammar', 'py-import-at-generic-alias'},
     'C10-python-empty-union': {'py-syntax'},
+    'C10-python-generic-enum-arg': {'py-import-not-subscriptable'},
 }
 
 OVERRIDE = ('#[typeshare(typescript(type = "Record<string, number[]>"), kotlin(type = "Map<String, List<Int>>"), '
@@ -52,8 +53,18 @@ def configs(version):
 
 
 # ------------------------------------------------------------------ generators
+# doc lines that are SAFE (c10_doc_ok) but full of characters that mean something to some lexer
+SAFE_DOCS = ['has { brace ( paren [ bracket', 'closes } ) ] nothing', "uses 'single' quotes and one '", 'star * and slash / apart, ** twice',
+             'hash # tag and // slashes', 'ends with a quote"', 'two "" quotes and `one tick', 'dollar ${x} template', 'x /', '* leading star',
+             'unicode \u00e9\u4e2d ok', "it's <b>html</b> & more"]
+
+
 def decorate(rng, prog):
-    """plant decorators, redaction, read-only markers and balanced type overrides"""
+    """plant decorators, redaction, read-only markers and balanced type overrides; make some doc lines nasty but safe"""
+    for it in prog.items:
+        for holder in [it] + list(it.fields) + list(it.variants) + [f for v in it.variants for f in v.fields]:
+            if holder.docs and rng.random() < 0.5:
+                holder.docs = [rng.choice(SAFE_DOCS) if rng.random() < 0.7 else d for d in holder.docs]
     for it in prog.items:
         if not it.annotated:
             continue
@@ -167,7 +178,14 @@ def python_verdict(text):
         if late:
             NAME_ERRORS.append(sorted(late))
     except Exception as e:      # noqa: any other failure of the import is the observation
-        fails.append('py-import')
+        import traceback
+        lines = [fr.lineno for fr in traceback.extract_tb(e.__traceback__) if fr.filename == '<generated>']
+        sub = {n.lineno for n in tree.body if isinstance(n, ast.Assign) and any(isinstance(t, ast.Subscript) for t in n.targets)}
+        # a failure raised BY a `Name[T] = ..` statement is the generic-alias defect itself, not a second one
+        kind = 'py-import-at-generic-alias' if lines and lines[-1] in sub else 'py-import'
+        if kind == 'py-import' and isinstance(e, TypeError) and 'not subscriptable' in str(e):
+            kind = 'py-import-not-subscriptable'
+        fails.append(kind)
         why.append(f'{type(e).__name__}: {e}')
     finally:
         sys.path[:] = saved
@@ -258,10 +276,13 @@ def judge(chk, cases, tag):
         kwq.append(kw_request(lang, obs[k][0], obs[k][1]))
         if lang == 'typescript':
             tsq.append((k, f'(c10_ts_parse {S(text)})'))
-    ans = vf.model(lexq + clsq + kwq + [q for _, q in tsq])
+    cfgkeys = sorted(set((cases[k][0], json.dumps(cases[k][1], sort_keys=True)) for k in idx))
+    cfgq = [f'(c10_cfg {l} {back.cfg_sx(json.loads(c))})' for l, c in cfgkeys]
+    ans = vf.model(lexq + clsq + kwq + [q for _, q in tsq] + cfgq)
     n = len(idx)
     lexa, clsa, kwa = ans[:n], ans[n:2 * n], ans[2 * n:3 * n]
-    tsa = dict(zip([k for k, _ in tsq], ans[3 * n:]))
+    tsa = dict(zip([k for k, _ in tsq], ans[3 * n:3 * n + len(tsq)]))
+    cfg_ok = dict(zip(cfgkeys, [a == 'true' for a in ans[3 * n + len(tsq):]]))
     # the model's own observation of the declaring positions (extractor self-check + correspondence)
     srcs = sorted(set(cases[k][2] for k in idx))
     asts = dict(zip(srcs, vf.impl([{'cmd': 'ast', 'src': s} for s in srcs])))
@@ -281,7 +302,9 @@ def judge(chk, cases, tag):
         chk.count(f'{tag}.{lang}')
         payload = {'lang': lang, 'cfg': cfg, 'src': src, 'meta': meta}
         equal = back.same(r['impl'], r['model'])
-        dom = vf.sx_get(clsa[j], 'dom') == 'true'
+        dom = vf.sx_get(clsa[j], 'dom') == 'true' and cfg_ok[(lang, json.dumps(cfg, sort_keys=True))]
+        if not cfg_ok[(lang, json.dumps(cfg, sort_keys=True))]:
+            chk.count('inadmissible_configuration')
         known = list(vf.sx_get(clsa[j], 'known'))
         decls, labels, fails, why = obs[k]
         fails = list(fails)
@@ -348,6 +371,7 @@ WITNESSES = [
     ('scala', {'package': 'com.x'}, '#[typeshare]\npub struct A { #[serde(default)] pub x: String }\n', 'C10-scala-default'),
     ('swift', {}, '#[typeshare]\npub struct A { pub r#let: String, pub inout: u8 }\n', 'C10-swift-label'),
     ('python', {}, '#[typeshare]\npub type A<T> = Vec<T>;\n', 'C10-python-generic-alias'),
+    ('python', {}, '#[typeshare]\n#[serde(tag = "t", content = "c")]\npub enum G<T> { V(T) }\n#[typeshare]\npub type Al = Vec<G<u8>>;\n', 'C10-python-generic-enum-arg'),
 ]
 
 
